@@ -610,7 +610,8 @@ def refuse_one(env, drv, bits, mname):
         spun = True
         out = "never returns: spins without yielding to the event loop"
     except BaseException as e:  # noqa
-        out = "err " + type(e).__name__
+        names = [k.__name__ for k in type(e).__mro__]
+        out = "err " + ("UnsupportedFrameTypeError" if "UnsupportedFrameTypeError" in names else type(e).__name__)
     finally:
         hidmod.os = saved_os
     written = [w.hex()[:24] for w in state["fos"].written[:2]] if "fos" in state else []
